@@ -1354,6 +1354,28 @@ fn next_const_generic<T: Iterator<Item = TokenTree> + Clone>(
         ) {
             source.next();
             (name, cg_type, Some(ConstValType::Value(default_value as isize)))
+        } else if matches!(
+            source.peek(),
+            Some(TokenTree::Punct(p)) if p.as_char() == '-'
+        ) || matches!(
+            source.peek(),
+            Some(TokenTree::Literal(_)) | Some(TokenTree::Group(_))
+        ) {
+            // any other expression (`-1`, `'x'`, `{ N + 1 }`): no template prints a default back, so it is
+            // skipped up to the `,` or `>` that ends the parameter
+            while let Some(token) = source.peek() {
+                if matches!(token, TokenTree::Punct(p) if p.as_char() == ',' || p.as_char() == '>') {
+                    break;
+                }
+                source.next();
+            }
+            let unnamed = Type {
+                ident: Category::UnNamed,
+                wraps: None,
+                ref_type: None,
+                as_other: None,
+            };
+            (name, cg_type, Some(ConstValType::Named(Box::new(unnamed))))
         } else {
             let def =
                 next_type(source).expect("must have either a value or other const as default");
